@@ -89,6 +89,19 @@ CHECKS = {
         note="bounds: history length 3 (quick) / 4 (thorough) over the alphabets printed in the evidence; match_depth=False "
              "and `visible` not explored. " + TRUST,
         design="2/C18"),
+    "C03": dict(
+        category="model_checking", engine="E1",
+        technique="rewrite-system state graph: enumerated queries x every RULES prefix and qualify+single rule; result-equivalence invariant on all small databases (SQLite leads, DuckDB decides)",
+        text="Initial states are all queries of the optimizer fragment with at most 2 constructs (1132 queries: every join kind and ON "
+             "shape, derived tables / CTEs containing WHERE / GROUP BY / DISTINCT / LIMIT / OFFSET / windows / UNION and referenced once or "
+             "twice, correlated and uncorrelated IN / NOT IN / EXISTS / ANY / ALL / scalar subqueries, HAVING, DISTINCT, set operations). "
+             "Transitions are every prefix of RULES and qualify followed by each single rule (27 per query; thorough adds ordered rule "
+             "pairs as leads). Each distinct reached query text must return the same rows (multiset, ORDER BY key order) and column "
+             "names as the initial query: on DuckDB for a rich, a second rich, the all-empty and each-table-empty instances, and on "
+             "SQLite for EVERY instance with <= 2 rows per table over {NULL,1,2} (3025 for two tables), SQLite disagreements being "
+             "re-run on DuckDB and reported only when DuckDB confirms.",
+        note="DuckDB 1.5.5 decides, SQLite 3.40.1 generates leads; OptimizeError is a legitimate refusal. " + TRUST,
+        design="2/C03"),
     "C04": dict(
         category="exploration", engine="E1",
         technique="exhaustive enumeration of all strings up to length L over a computed adversarial alphabet x all dialects x kinds x options; tokenizer round-trip oracle",
